@@ -41,6 +41,7 @@ func init() {
 			{Name: "pairs", Run: runPairs},
 			{Name: "noin", Run: runNoIn},
 			{Name: "literals", Run: runLiterals},
+			{Name: "lexerrors", Run: runLexErrors},
 			{Name: "earlyerrors", Run: runEarlyErrors},
 		},
 		Assumptions: []string{
